@@ -32,13 +32,15 @@ def _msgs(pkts):
     return [d for t, d in pkts if t == 4]
 
 
-def _handshake(fl, a, b, n, pending, pre_send, mid_send):
+def _handshake(fl, a, b, n, pending, pre_send, mid_send, c=0):
     sut = mk(fl, async_handlers=False, max_http_buffer_size=30)
     try:
         sut.open('polling')
         sut.settle()
         sid = sut.sids()[0]
-        frames = [FRAMES[a], FRAMES[b]][:n]
+        frames = [FRAMES[a], FRAMES[b], FRAMES[c]][:n]
+        if 'ACCEPT-FAILS' in frames[1:]:
+            return ''          # the accept fault only exists as the first event on the socket
         st = dict(flavour=sut.flavour, frames=repr(frames), pending=bool(pending))
         sent = []
         if pre_send:
@@ -69,7 +71,9 @@ def _handshake(fl, a, b, n, pending, pre_send, mid_send):
                 sut.app_send(sid, 'm-mid')
                 sent.append('m-mid')
                 sut.settle()
-        ok_handshake = n == 2 and frames[0] == '2probe' and isinstance(frames[1], str) and frames[1][:1] == '5' and len(frames[1]) <= 30
+        ok_handshake = n >= 2 and frames[0] == '2probe' and isinstance(frames[1], str) and frames[1][:1] == '5' and len(frames[1]) <= 30
+        if ok_handshake and n == 3:
+            return ''          # a third frame after a completed handshake is ordinary WebSocket traffic (C04)
         ended = [1 for k, s, x in sut.events if k == 'disconnect']
         try:
             tr = sut.transport(sid)
@@ -223,3 +227,17 @@ def transports_setting(fl: int, ti: int, ws_first: bool) -> str:
 
 
 from vf.validate.stubs import ALL as VALIDATE  # noqa: E402  (stub-vs-real conformance, run before the obligations)
+
+
+@cond(thorough=dict(timeout=1500, parts=dict(FL=[0, 1])))
+def handshake_three_frames(fl: int, a: int, b: int, c: int, pending: bool) -> str:
+    """
+    pre: fl == P.FL and 0 <= a < len(FRAMES) and 0 <= b < len(FRAMES) and 0 <= c < len(FRAMES)
+    post: _ == ''
+    """
+    # thorough tier only: every sequence of three frames on the upgrade socket
+    return verdict(untraced(_hs3, fl, a, b, c, pending))
+
+
+def _hs3(fl, a, b, c, pending):
+    return _handshake(fl, a, b, 3, pending, True, False, c)
